@@ -34,6 +34,7 @@ BOUNDS = {'connect': 'device reply scripts of <= 3 (quick) / exactly 4 (thorough
           'remote ids': 'non-zero (an OKAY carrying remote id 0 is protocol-invalid; the code then returns a stream with remote id 0: observation)',
           'open_stream': '<= 3 device replies, each any command, addressed to this stream / another live stream / an unknown id, symbolic remote ids; arbitrary id-allocator pre-state',
           'id allocation': 'inductive step: _last_id_used symbolic in [0, 2**16], <= 3 live ids anywhere in [1, 2**16) (symbolic) -> one allocation',
+          'refusal via another reader': 'one live stream whose thread is the connection reader, one half-open stream (OPEN sent) refused by a CLSE with a symbolic remote id; arbitrary allocator pre-state',
           'close': 'local close, remote close, double close; buffered data <= 2 WRTE payloads of <= 2 chars'}
 STUBS = ['FakeAdapter: message-level transport (write_message records, read_message pops the scripted device reply or raises a USB read timeout); the real read_until is inherited',
          'ScriptTimeout passed as timeout_ms (PolledTimeout.from_millis returns it unchanged): expiry answers are symbolic booleans',
@@ -395,6 +396,53 @@ def w_connect_two_keys(a0: int, a1: int, d0: str) -> bool:
 
 def _addr(which, new_id, other_id):
   return (new_id, other_id, 54321)[which]     # this stream / another live stream / unknown id
+
+
+@cond(timeout=600)
+def c_refusal_seen_by_another_reader(last: int, r: int, other_rid: int, d: str, then_open: bool) -> bool:
+  """
+  pre: 0 <= last <= L
+  pre: 0 <= r < 2**32 and 1 <= other_rid < 2**32
+  pre: 1 <= len(d) <= 2
+  post: _
+  """
+  # A two-thread schedule, written out sequentially with the real functions: thread B ran the first half of
+  # open_stream (id allocated, OPEN sent) and is preempted before it reads; the thread of the live stream OTHER is the
+  # connection reader, so IT receives the device's CLSE refusing B's OPEN (and then its own data).  B then resumes:
+  # a CLSE reply yields no stream and releases the id.
+  OTHER = 7
+  new_id = last % L + 1
+  if new_id == L:
+    new_id = 1
+  if new_id == OTHER:
+    return True
+  conn, ad = _mk_conn([], last, [(OTHER, other_rid)])
+  other = conn._stream_transport_map[OTHER]
+  tb = conn._make_stream_transport()
+  if tb.local_id != new_id:
+    return False
+  conn.transport.write_message(M.AdbMessage(command='OPEN', arg0=tb.local_id, arg1=0, data='shell:x' + chr(0)), usbstub.ScriptTimeout())
+  ad.script = [('CLSE', r, new_id, ''), ('WRTE', other_rid, OTHER, d)]
+  got = P.AdbStream('other', other).read(timeout_ms=usbstub.ScriptTimeout())
+  opened = tb.ensure_opened(usbstub.ScriptTimeout())     # second half of open_stream, thread B resumed
+  reach()
+  if got != d or opened:
+    return False
+  if new_id in conn._stream_transport_map or OTHER not in conn._stream_transport_map:     # B's id released, OTHER untouched
+    return False
+  clses = [x for x in ad.sent if x[0] == 'CLSE']
+  # a stream that never got a remote id has no remote end to CLSE (as in c_open_stream, no answer is demanded for a
+  # refused OPEN); what may never happen is more than one CLSE, or a CLSE carrying another stream's id
+  if len(clses) > 1 or (clses and clses[0][1] != new_id):
+    return False
+  if [x for x in ad.sent if x[0] == 'OKAY'] != [('OKAY', OTHER, other_rid, '')]:    # OTHER's WRTE acked once
+    return False
+  if then_open:
+    # the released id does not stay blocked: with the allocator rewound to just before it, it is handed out again
+    conn._last_id_used = last
+    t2 = conn._make_stream_transport()
+    return t2.local_id == new_id
+  return True
 
 
 @cond(timeout=1200, split={'k0': range(8)})
